@@ -82,6 +82,34 @@ def Expr.Ql : Expr → List VarId → List Key → Bool
   | .forAll q φ, A, _ => φ.FcQ && !A.contains q && φ.nodes.all fun k => (Expr.bK true φ).contains k
   | _, _, _ => false
 
+def Expr.noForAll : Expr → Bool
+  | .forAll _ _ => false
+  | .and l r | .elseIf l r | .union l r => l.noForAll && r.noForAll
+  | .not e | .exists_ _ e => e.noForAll
+  | _ => true
+
+/-- keys that every TRUE result cell binds, for conjunctions that may contain `exists` (whose results are the true
+cells of its condition) -/
+def Expr.tb : Expr → List Key
+  | .and l r => l.tb ++ r.tb
+  | .exists_ _ φ => Expr.bK true φ
+  | .forAll _ _ => []
+  | e => Expr.bK true e
+
+/-- **the quantifier fragment, and-TREES** (`A`: variables that MAY be bound when `e` is reached; `B`: keys that ARE bound
+then): conjunctions, nested in any way, of conditions in the cover fragment and quantifiers `exists_ q φ` / `forAll q φ`
+over conditions `φ` in the cover fragment, with the side conditions of `Expr.Ql` at each quantifier (the variables an
+`exists` needs bound may be bound by ANY conjunct evaluated before it, also by an earlier `exists`), every quantified
+variable used nowhere outside its quantifier, and nothing evaluated AFTER a `forAll` (the row a `ForAll` passes on lists
+the candidate's keys twice; nothing is proved about conjuncts that meet such a row) -/
+def Expr.Qt : Expr → List VarId → List Key → Bool
+  | .and l r, A, B => Expr.Qt l A B && l.noForAll && (l.qvars.all fun v => !r.vars.contains v) &&
+      Expr.Qt r (A ++ l.vars) (B ++ l.tb)
+  | .exists_ q φ, A, B => φ.FcQ && !A.contains q && (Expr.bK true φ).contains (.var q) &&
+      (Expr.bK false φ).contains (.var q) && φ.vars.all fun v => v == q || B.contains (.var v)
+  | .forAll q φ, A, _ => φ.FcQ && !A.contains q && φ.nodes.all fun k => (Expr.bK true φ).contains k
+  | e, _, _ => e.FcQ
+
 /-- no selected expression mentions a quantified variable -/
 def selNoQuant (sel : List Term) (e : Expr) : Bool :=
   e.qvars.all fun v => !(sel.flatMap Term.vars).contains v
@@ -97,8 +125,8 @@ def nodupVal : List Val → Bool
   | [] => true
   | x :: r => !r.contains x && nodupVal r
 
-/-- **every hypothesis of `C01_quant_sound_complete_partial`, decidably**: the built condition is in the quantifier
-fragment; the selected expressions are `flatten`-free chains over variables, no variable feeds two of them, none mentions
+/-- **every hypothesis of `C01_quant_tree_sound_complete_partial`, decidably**: the built condition is in the quantifier
+fragment `Expr.Qt` (and contains a quantifier); the selected expressions are `flatten`-free chains over variables, no variable feeds two of them, none mentions
 the quantified variable; the domains are duplicate-free and — for the query's free and selected variables —
 non-empty; literal ids are distinct -/
 def quantProved (w : World) (q : SQuery) : Bool :=
@@ -106,7 +134,7 @@ def quantProved (w : World) (q : SQuery) : Bool :=
   | none => false
   | some c =>
     let e := build c
-    e.Ql [] [] && (q.sel.all fun s => s.noFlatQ && s.noLitQ) && !trigMultiSel q && selNoQuant q.sel e &&
+    e.Qt [] [] && !e.qvars.isEmpty && (q.sel.all fun s => s.noFlatQ && s.noLitQ) && !trigMultiSel q && selNoQuant q.sel e &&
       (w.doms.all fun d => nodupVal d.2) && (q.vars.all fun v => !(w.dom v).isEmpty) && nodupNat (litIdsQ e.nodes)
 
 /-- the triggers a case may be attributed to: inside the proved quantifier fragment the quantifier findings
